@@ -76,6 +76,14 @@ def run(facts, rep, tier, ctx):
     from . import c13
     kk = c13.sites_for(facts, rep, ctx["V"], "R17.p", lambda r: r.name == "create_dir_all")
     rep.floor("create_dir_all slicing sites", kk, 6)
+    # ... nor has any backend's / adapter's create_dir (a racing caller must get DirectoryExists, not a panic: an assertion of
+    # a state that only holds sequentially is one)
+    c13.sites_for(facts, rep, ctx["V"], "R17.pc", lambda r: r.name == "create_dir" and bool(r.impl) and bool(r.impl.get("trait")) and
+                  r.impl["trait"].rsplit("::", 1)[-1] in ("FileSystem", "AsyncFileSystem"))
+    # every way of constructing the in-memory filesystems yields one whose root is a directory (create_dir_all's first segment
+    # needs it)
+    from . import c03 as _c03
+    _c03.root_rules(facts, rep, "R17.r")
     # R17.4w re-creating a directory that was removed through the overlay takes two writes (create in the write layer, remove
     # the deletion marker).  Between them the union view is inconsistent (the write layer answers DirectoryExists, the
     # overlay's exists() still says "absent"), so a concurrent create_dir_all of something below the directory fails in
